@@ -19,6 +19,7 @@ list ↦ `[.signerResponseReceived m.clear]`.
 -/
 import KrillModel.Generated.PureFnsC15
 import KrillModel.Ta.Proxy
+import KrillModel.Ta.Signer
 namespace KM.Props.C15Src
 open KM.Ta
 
@@ -96,5 +97,61 @@ example : genSignerResponse { idKey := 3, signer := some sig0, openNonce := some
     = .error .nonceMismatch := by decide
 example : genSignerResponse { idKey := 3, signer := some sig0, openNonce := some 42 } { honest with signer := 8 }
     = .error .invalidSignature := by decide
+
+/-! ## The signer's two guards (`TrustAnchorSigner::process_signer_request`)
+
+The statements in front of the signing - the request validates under the associated proxy's identity; a manifest-number
+override must EXCEED the signer's current manifest / CRL number - are regenerated as
+`KM.Gen.C15.TrustAnchorSigner.process_signer_request` (everything from `let mut objects = self.objects.clone();` on is the
+parameter `rest`).  With the model's parts plugged in this is the model's `processSignerRequest` (`ta_numbers_increase_partial`
+and `request_processed_iff_signed_by_proxy` in Props/C15.lean are about it): `<` instead of `<=`, a comparison with another
+number than the signer's own current one (seed C15-r6: the number of the last exchange, 1 when there has been none), the
+override check before the validation - each such edit changes the generated definition or its name map and this file stops
+checking. -/
+
+/-- The signing itself, as the model has it (the continuation after the two guards). -/
+def signerRest (s : Signer) (m : Signed ReqBody) (override : Option Nat) : Except SErr (Signer × Signed RespBody) :=
+  match signAll m.clear.resources { objects := s.objects, serial := s.nextSerial } m.clear.entries with
+  | .error e => .error e
+  | .ok a =>
+    let objects := a.objects.republish override
+    let rb : RespBody := { nonce := m.clear.nonce, objects := objects, entries := a.out }
+    .ok ({ s with objects := objects, exchanges := s.exchanges ++ [(m.clear, rb)],
+                  nextSerial := a.serial },
+         { signer := s.idKey, body := rb, clear := rb, fresh := true })
+
+theorem gen_process_signer_request_eq_model (s : Signer) (m : Signed ReqBody) (override : Option Nat) :
+    KM.Gen.C15.TrustAnchorSigner.process_signer_request
+        (if m.validFor s.proxyKey then Except.ok () else Except.error SErr.invalidSignature)
+        s.objects.number (fun _ _ => SErr.overrideTooLow) (signerRest s m override) override =
+      processSignerRequest s m override := by
+  unfold KM.Gen.C15.TrustAnchorSigner.process_signer_request processSignerRequest signerRest
+  by_cases hv : m.validFor s.proxyKey = true
+  · simp only [hv, if_true]
+    cases override with
+    | none =>
+      simp only [Option.all_none, Bool.not_true, Bool.false_eq_true, if_false]
+      cases signAll m.clear.resources { objects := s.objects, serial := s.nextSerial } m.clear.entries <;> rfl
+    | some f =>
+      by_cases hf : f ≤ s.objects.number
+      · have : ¬ s.objects.number < f := by omega
+        simp [hf, this]
+      · have : s.objects.number < f := by omega
+        simp only [hf, if_false, Option.all_some, this, decide_true, Bool.not_true, Bool.false_eq_true]
+        cases signAll m.clear.resources { objects := s.objects, serial := s.nextSerial } m.clear.entries <;> rfl
+  · simp [hv]
+
+/-- An accepted override is strictly above the signer's current number, whatever that number came from (an earlier
+exchange, an override, or the number the signer was INITIALISED with). -/
+theorem accepted_override_exceeds_current (s : Signer) (m : Signed ReqBody) (f : Nat)
+    (r : Signer × Signed RespBody) (h : processSignerRequest s m (some f) = .ok r) : s.objects.number < f := by
+  rw [← gen_process_signer_request_eq_model] at h
+  unfold KM.Gen.C15.TrustAnchorSigner.process_signer_request at h
+  by_cases hv : m.validFor s.proxyKey = true
+  · simp only [hv, if_true] at h
+    by_cases hf : f ≤ s.objects.number
+    · simp [hf] at h
+    · omega
+  · simp [hv] at h
 
 end KM.Props.C15Src
